@@ -6,6 +6,11 @@ BASE = json.load(open("/root/.vp/BASELINE.json"))["cmd"] if os.path.exists("/roo
     "cd /repo && /venv/bin/python -m pytest -ra -q -p no:cacheprovider --timeout=900 --continue-on-collection-errors"
 
 CLAIMED = {
+ "C08": dict(
+    technique="static analysis: cross-implementation agreement between the compiled kernels (clang AST + case-based abstract execution) and the pure-Python fallbacks (ast + constant propagation of flag parameters): interfaces, flag decision tables, offset/buffer pairing, write-set agreement of sibling arms, block-offset algebra",
+    text="That either implementation computes the mathematical definition is NOT decided. Decided: the 12 switched kernels have the same parameter names, order, optionality and defaults in the compiled wrapper and in the Python fallback and both arms of every use_C switch are bound; for every combination of flag arguments the compiled kernel and the fallback call the same BLAS/LAPACK routines with the same side/uplo/trans/diag arguments; in the compiled kernels every offset variable added to a matrix buffer belongs to that matrix and the arms of each if/else-if chain write the same argument matrices; block walks of the Python kernels advance by exactly what they touch; sgemv undoes its temporary scaling.",
+    note="Trusted: clang 14, CPython ast, sa/cmodel.py, sa/offsets.py; BLAS/LAPACK (C17/C18). The missing type/length guards of the compiled kernels are recorded findings of C19.",
+    ref="DESIGN.md section 3, C08"),
  "C07": dict(
     technique="static analysis: key-vocabulary agreement between Python writers/readers and the C kernels' dictionary lookups, co-update rule for inverse pairs via the effect table, saved-counterpart pairing of cpl's save/restore copies, typestate rule 'clobbered by a failed in-place factorisation => rebuild before reuse', contribution-set agreement of the assembly sites, block-offset algebra",
     text="The linear-algebra identities of C07 are numerical and NOT decided. Decided structural necessary conditions: one key vocabulary for the scaling dictionary across coneprog/cvxprog/misc and misc_solvers.c and complete key sets at every creation site; inverse pairs d/di, dnl/dnli, r/rti co-updated in every function that writes one member; cpl's save/restore copies go between each object and its own saved counterpart; in the kkt_* factories a matrix whose in-place factorisation failed is rebuilt by an overwriting operation before it is read or accumulated into, and all assembly sites of one matrix add the same contributions; block-offset discipline in compute_scaling/update_scaling/kkt_*.",
